@@ -33,6 +33,7 @@ func genC11(t *rapid.T) Case {
 			if k == "set" {
 				op.Len = rapid.OneOf(rapid.SampledFrom(extLens), rapid.IntRange(0, 5000)).Draw(t, "len")
 				op.Via, op.Split = GenVia(t, op.Len)
+				op.Src = GenSrc(t, op.Via)
 			}
 			c.Ops = append(c.Ops, op)
 			if rapid.IntRange(0, 14).Draw(t, "restart") == 0 {
